@@ -51,6 +51,17 @@ class Harness:
         self.node.add_read_callback(self._read_cb)
         self.node.add_write_callback(self._write_cb)
         self.reported = 0
+        self.model_store = {}          # (index, sub) -> bytes accepted by a completed download (reference model of data_store)
+
+    def check_store(self, case):
+        """Every value accepted by a completed download must still be exactly what data_store holds."""
+        for (index, sub), want in self.model_store.items():
+            got = self.node.data_store.get(index, {}).get(sub)
+            self.ctx.count("store_model_compared")
+            if got is None or bytes(got) != want:
+                self.ctx.violation("stored-value-changed-later", f"data_store[{index:#x}][{sub}] = {got!r}, the last accepted download was {want!r}",
+                                   case, self.rig.wire(16))
+                self.model_store[(index, sub)] = bytes(got) if got is not None else b""
 
     def _read_cb(self, index, subindex, od, **kw):
         return self.cb_values.get((index, subindex))
@@ -163,6 +174,7 @@ def one_download(ctx, h, rng, vm, data, mode, size_ind, seg_sizes, workload="dow
     stored = h.node.data_store.get(vm.index, {}).get(vm.sub)
     if stored != data:
         ctx.violation(f"download-store-mismatch:{mode}", f"data_store holds {stored!r} after downloading {data!r}", case, h.rig.wire(12))
+    h.model_store[(vm.index, vm.sub)] = bytes(data)
     new = h.write_log[nlog:]
     if len(new) != 1 or new[0][0] != vm.index or new[0][1] != vm.sub or new[0][3] != data:
         ctx.violation("write-callback-mismatch", f"write callbacks saw {[(a, b, d) for a, b, _, d in new]} for one download of {data!r}", case)
@@ -226,6 +238,18 @@ def history(ctx, model, rng, length, hid):
             ctx.count("history_frames")
             ctx.case(("history-frame", frame[0] >> 5, len(frame), "first" if step == 0 else "later"))
             h.flush_findings(case)
+            # an arbitrary frame may legitimately *start* a download that overwrites a value (expedited) - then the
+            # model follows; anything else must leave every stored value alone
+            ccs_ = frame[0] >> 5
+            may_commit = (ccs_ == 1 and frame[0] & 0x02) or (ccs_ == 0 and frame[0] & 0x01)
+            if may_commit:
+                # an expedited initiate or a *last* download segment may legitimately complete a transfer that the
+                # history itself started: the model follows the store
+                for key in list(h.model_store):
+                    cur = h.node.data_store.get(key[0], {}).get(key[1])
+                    if cur is not None:
+                        h.model_store[key] = bytes(cur)
+            h.check_store(case)
         elif r < 0.8:
             vm = rng.choice(vars_)
             ops.append(("upload", vm.index, vm.sub))
@@ -242,6 +266,7 @@ def history(ctx, model, rng, length, hid):
                                       f"upload inside a history gave {res}, expected {want.hex()}", case, h.rig.wire(16))
             ctx.case(("history-upload", R.NAMES[vm.dt], "first" if step == 0 else "later"))
             h.flush_findings(case)
+            h.check_store(case)
         else:
             ws = [vm for vm in vars_ if "w" in vm.access]
             if not ws:
